@@ -6,6 +6,15 @@ def getRows (j : Json) (k : String) : Except String (List (List Rat)) := do
   let a ← getArr j k
   a.toList.mapM fun r => do (← r.getArr?).toList.mapM parseRat
 
+/-- list of optional rationals (`null` = attribute absent); a missing key is the empty list -/
+def getOptRats (j : Json) (k : String) : Except String (List (Option Rat)) :=
+  match j.getObjVal? k with
+  | .error _ => pure []
+  | .ok (.arr a) => a.toList.mapM fun v => match v with
+    | .null => pure none
+    | v => some <$> parseRat v
+  | .ok _ => throw s!"{k}: list expected"
+
 def getOptRat (j : Json) (k : String) : Except String (Option Rat) :=
   match j.getObjVal? k with
   | .error _ => pure none
@@ -55,7 +64,7 @@ def handlers : List (String × Handler) := [
     let rows ← getRows j "positions"
     let ori ← getRatList j "ori"
     let items := rows.zipIdx
-    let r := assembleSeries items ori (← getOptRat j "rtol") (← getOptRat j "atol")
+    let r := assembleSeries items (← getOptRats j "sbs") ori (← getOptRat j "rtol") (← getOptRat j "atol")
     pure (exceptToJson (fun (x : Rat × List Rat × List Nat) =>
       Json.mkObj [("spacing", ratToJson x.1), ("position", ratsToJson x.2.1), ("order", natsToJson x.2.2)]) r)),
   ("assembleFrames", fun j => do
@@ -69,10 +78,11 @@ def handlers : List (String × Handler) := [
   ("seriesVolumePositions", fun j => do
     let rows ← getRows j "positions"
     let oris ← getRows j "orientations"
+    let sbs ← getOptRats j "sbs"
     let eo ← getOpts j
     let r : Except ErrKind (Option (Rat × List Int)) := do
       let o ← eo
-      seriesVolumePositions (oris.zip rows) (← (pure o.hint : Except ErrKind (Option Rat))) o
+      seriesVolumePositions (oris.zip rows) sbs o
     pure (exceptToJson resJson r)),
   ("uniqueRows", fun j => do
     let rows ← getRows j "positions"
